@@ -126,7 +126,7 @@ func doHTTP(toks map[string]string) string {
 	case "text":
 		req.Header.Set("Content-Type", "text/plain")
 	}
-	deadline := 20 * time.Second
+	deadline := 60 * time.Second // generous: the machine may be heavily loaded; witnesses of hangs carry their own t=
 	if t := toks["t"]; t != "" {
 		ms, _ := strconv.Atoi(t)
 		deadline = time.Duration(ms) * time.Millisecond
